@@ -1,6 +1,7 @@
 import StepModel.P21.Writer
 import StepModel.P21.ReaderLemmas11
 import StepModel.P21.ReaderLemmas14
+import StepModel.P21.ReaderLemmas17
 import StepModel.Generated.P21RWGen
 /-! # C01 — exchange files survive read-then-write: property theorems
 
@@ -973,6 +974,85 @@ theorem C01_read_complex_record_partial {F} (env : Env F) (strict : Bool) (hcfg 
     rw [hattrs]
     have := C01_read_empty_record env strict inner hin l rest sk
     simpa using this
+
+/-- `CPartCovered` gives what `STEPcomplex::STEPread` needs of a part -/
+theorem cpartCovered_ok {F} (env : Env F) (strict : Bool) (hcfg : env.lex.criSkipsComments = true)
+    (hagg : env.cfg.aggrSkipsComments = true) (c : CPart F) (h : CPartCovered env c) : CPartOK env strict c := by
+  cases h with
+  | params n0 ns sA sB hn0 hns hsA hsB ed hent ps hne hattrs hcv =>
+    refine ⟨hn0, hns, hsA, hsB, ed, hent, ?_⟩
+    intro l sk rest
+    rw [hattrs]
+    exact C01_read_record_partial env strict hcfg hagg ps hne hcv l sk rest
+  | empty n0 ns sA sB hn0 hns hsA hsB ed hent hattrs inner hin =>
+    refine ⟨hn0, hns, hsA, hsB, ed, hent, ?_⟩
+    intro l sk rest
+    refine ⟨sk, ?_⟩
+    rw [hattrs]
+    have := C01_read_empty_record env strict inner hin l rest sk
+    simpa using this
+
+/-- **an externally mapped record through both passes** (`_partial`, record level): for a record
+    `#id = ( PART(…) PART(…) … ) ;` - any layout around `=` and before `;`, blanks between the parts and around their
+    parentheses, every part's parameter list balanced text without comments (`CPartScan`: what `SkipSimpleRecord` steps over)
+    over the parameter kinds of `Covered` (`CPartCovered`), no layout between the outer `(` and the first part - whose sorted
+    set of known part names is a legal combination of the dictionary: (1) `CreateInstance` (pass 1, any manager that does not
+    hold the id) creates the complex instance with the parts sorted by name and every attribute unset, and leaves the stream
+    at the token behind the record's `;`; (2) `ReadInstance` (pass 2, any state whose manager holds that instance) reads
+    every part to the values of its tokens, severity NULL, the instance complete.  Not proved: the composition with the
+    loops of both passes over a whole data section (the loop lemmas are stated for internally mapped records). -/
+theorem C01_complex_record_both_passes_partial {F} (ops : FloatOps F) (lex : LexCfg) (cfg : RWCfg) (d : Dict) (strict : Bool)
+    (hskip : cfg.skipInstanceSkipsComments = true) (hcri : lex.criSkipsComments = true) (hagg : cfg.aggrSkipsComments = true)
+    (hrep : cfg.complexReportsError = true) (r : CRec F) (hlex : r.Lex)
+    (hlegal : d.complexSets.contains (sortNames ((r.parts.map (·.name)).filter (fun n => (d.entity? n).isSome))) = true)
+    (hknown : ∀ c ∈ r.parts, (d.entity? c.name).isSome = true) :
+    (∀ (m : Mgr F), m.find? r.id = none → ∀ (l g : List Byte), Seps g → ∀ (c : Byte) (k : List Byte),
+        isSpace c = false → c ≠ 47 → c ≠ 92 →
+        ∃ l', createInstance cfg d m (G l (r.text (g ++ c :: k)) false) = .ok (some (mkCInst d r), G l' (c :: k) false)) ∧
+    (∀ (st : P2 F), st.mgr.find? r.id = some (mkCInst d r) →
+        (∀ c ∈ r.parts, CPartCovered { ops := ops, lex := lex, cfg := cfg, dict := d, lookup := Mgr.lookup d st.mgr } c) →
+        ∀ (l rest : List Byte) (sk : Bool), st.s = G l (r.text rest) sk →
+        ∃ l' sk', readInstance ops lex cfg d strict st =
+          .ok { s := G l' rest sk',
+                inst := some { mkCInst d r with parts := r.parts.foldl (fun ps c => setPart ps c.name c.vals) (mkCInst d r).parts,
+                                                state := .complete },
+                reported := some .null, left := some .null }) := by
+  refine ⟨fun m hnone l g hg c k hc h47 h92 => createInstance_crec cfg hskip d m r hlex hnone hlegal l g hg c k hc h47 h92, ?_⟩
+  intro st hfind hcov l rest sk hs
+  refine readInstance_crec ops lex cfg d strict st hrep r hlex l rest sk hs (mkCInst d r) hfind rfl rfl
+    (fun c hc => cpartCovered_ok _ _ hcri hagg c (hcov c hc)) ?_
+  intro c hc
+  simp only [mkCInst, List.map_map, Function.comp_def, List.map_id']
+  -- the part's name is known, so it survives the filter, and sorting keeps it
+  have hmem : c.name ∈ (r.parts.map (·.name)).filter (fun n => (d.entity? n).isSome) :=
+    List.mem_filter.mpr ⟨List.mem_map_of_mem (f := fun x : CPart F => x.name) hc, hknown c hc⟩
+  have hsort : ∀ (ns : List String) (n : String), n ∈ ns → n ∈ sortNames ns := by
+    intro ns
+    induction ns with
+    | nil => intro n h; cases h
+    | cons x t ih =>
+      intro n h
+      have hins : ∀ (a : String) (l : List String) (b : String), b = a ∨ b ∈ l → b ∈ insertSorted a l := by
+        intro a l
+        induction l with
+        | nil => intro b hb; rcases hb with rfl | hb <;> simp_all [insertSorted]
+        | cons y u ihu =>
+          intro b hb
+          unfold insertSorted
+          split
+          · rcases hb with rfl | hb
+            · simp
+            · exact List.mem_cons_of_mem _ hb
+          · rcases hb with rfl | hb
+            · exact List.mem_cons_of_mem _ (ihu _ (Or.inl rfl))
+            · rcases List.mem_cons.mp hb with rfl | hb
+              · simp
+              · exact List.mem_cons_of_mem _ (ihu _ (Or.inr hb))
+      show n ∈ insertSorted x (sortNames t)
+      rcases List.mem_cons.mp h with rfl | h
+      · exact hins _ _ _ (Or.inl rfl)
+      · exact hins _ _ _ (Or.inr (ih n h))
+  exact hsort _ _ hmem
 
 /-! ### write ∘ read at file level -/
 
